@@ -13,7 +13,8 @@ CONSTANTS Classes, Fmts, Accepts
 TextClasses == {"TextJsonObj", "TextJsonArr", "BytesJsonObj", "TextHtml", "BytesHtml", "TextPlain", "BytesPlain", "TextEmpty",
                 "TextBraceNotJson", "TextJsonPadded"}
 ScalarClasses == {"Int", "Float", "Bool", "None", "PlainObject", "Generator"}
-NativeClasses == {"FlatMap", "SeqScalars", "SeqFlatMaps", "SeqFlatSeqs", "Nested", "EmptySeq", "EmptyMap", "Tuple"}   \* JSON-native data
+NativeClasses == {"FlatMap", "SeqScalars", "SeqFlatMaps", "SeqFlatSeqs", "Nested", "EmptySeq", "EmptyMap", "Tuple",
+                  "NonDictMapping"}   \* string-keyed mappings that are not dict subclasses (MappingProxyType, UserDict, ChainMap)   \* JSON-native data
 DegradedClasses == {"WithSet", "WithDatetime", "WithToDict", "WithAsDict", "WithPlainObject", "SetValue", "BytesInside"}  \* need help
 SerClasses == NativeClasses \cup DegradedClasses
 AllClasses == TextClasses \cup ScalarClasses \cup SerClasses
